@@ -14,7 +14,7 @@
 (*                                                                         *)
 (* Every clause is tagged "Cnn:clause" after the property it comes from.   *)
 (***************************************************************************)
-EXTENDS Interval, VersionText, RangeSyntax
+EXTENDS Interval, VersionText, RangeSyntax, RangeText
 
 NREG == 9
 Nil == <<>>
@@ -168,6 +168,8 @@ JPrintPlain(A, origin, e) ==
     \cup Chk((origin = "parse" /\ e.jok) => e.jeq, "C13:json-eq")
 JPrint(A, origin, e) ==
   \* the `*` shape (both sides unbounded) only comes from Range::any(), outside the quantifier of C13
+  \* beyond the listed properties: the exact Display text (pinned by the crate's ~70 parse tests)
+  Chk(e.text = PrintRange(A), "X:display-format") \cup
   IF HasAnyShape(A) THEN {}
   ELSE LET plain == JPrintPlain(A, origin, e) IN
        IF plain = {} THEN {}
@@ -213,6 +215,14 @@ JVSort(e) ==
   \cup Chk(e.max # <<>> => ((\E i \in Idx(L) : L[i] = e.max[1]) /\ \A i \in Idx(L) : VLe(L[i], e.max[1])), "C04:max")
   \cup Chk(e.min # <<>> => ((\E i \in Idx(L) : L[i] = e.min[1]) /\ \A i \in Idx(L) : VLe(e.min[1], L[i])), "C04:min")
 
+\* ------------------------------------------------------------------ C12 (versions built from canonical identifiers)
+JVBuilt(e) ==
+       Chk(e.print = PrintVersion(e.val), "C12:print")
+  \cup Chk(e.re.out = "ok" /\ e.re.val = e.val, "C12:reparse-equal-five-fields")
+  \cup Chk(e.print2 = e.print, "C12:fixed-point")
+  \cup Chk(e.json = <<34>> \o e.print \o <<34>>, "C12:json-is-printed-string")
+  \cup Chk(e.jback.out = "ok" /\ e.jback.val = e.val, "C12:json-roundtrip")
+
 \* ------------------------------------------------------------------ C16
 JVDiff(e) ==
        Chk(e.res = Diff(e.a, e.b), "C16:value")
@@ -245,12 +255,12 @@ PanicTag(call) ==
     [] call = "version_roundtrip" -> {"C12:panicked"}
     [] OTHER -> {}
 
-\* time: within budget (50 ms + 100 us per byte), and roughly linear: once a run takes 5 ms, 8 times the
-\* input may take at most 30 times as long
+\* time: within budget (50 ms + 20 us per byte - about 100 times the measured cost), and roughly linear:
+\* r times the input (r >= 4) may take at most 4r times as long plus 20 ms
 JTiming(e) ==
-       Chk(\A i \in Idx(e.n) : e.us[i] <= 50000 + 100 * e.n[i], "C06:time-budget")
+       Chk(\A i \in Idx(e.n) : e.us[i] <= 50000 + 20 * e.n[i], "C06:time-budget")
   \cup Chk(\A i \in Idx(e.n) : \A j \in Idx(e.n) :
-             (e.n[j] >= 7 * e.n[i] /\ e.n[j] <= 9 * e.n[i] /\ e.us[i] >= 5000) => e.us[j] <= 30 * e.us[i], "C06:superlinear")
+             (e.n[j] >= 4 * e.n[i]) => e.us[j] <= 4 * (e.n[j] \div e.n[i]) * e.us[i] + 20000, "C06:superlinear")
 JSoup(e) == Chk(e.us <= 2000000 + 2000 * e.len, "C06:time-budget")
 
 \* ------------------------------------------------------------------ register file
@@ -289,12 +299,13 @@ Judge(rr, org, e) ==
     [] e.ev = "sat"    -> JSat(rr[e.a], e)
     [] e.ev = "print"  -> JPrint(rr[e.a], org[e.a], e)
     [] e.ev = "maxsat" -> JMaxSat(rr[e.a], e)
-    [] e.ev = "rparse" -> JRParse(e)
+    [] e.ev = "rparse" -> JRParseFull(e)
     [] e.ev = "concat" -> JConcat(e)
     [] e.ev = "soup"   -> JSoup(e)
     [] e.ev = "timing" -> JTiming(e)
     [] e.ev = "ident"  -> JIdent(rr[e.l], rr[e.r], e)
     [] e.ev = "vparse" -> JVParse(e)
+    [] e.ev = "vbuilt" -> JVBuilt(e)
     [] e.ev = "vcmp"   -> JVCmp(e)
     [] e.ev = "vsort"  -> JVSort(e)
     [] e.ev = "vdiff"  -> JVDiff(e)
